@@ -7,6 +7,13 @@ NOTES = ("Model-based verification with explicit TLA+ specifications (spec/*.tla
 
 CHECKS = [
     {
+        "property_id": "C14",
+        "design_ref": "DESIGN.md §4 C14",
+        "technique": "TLA+ model CovFrames.tla on an exact integer lattice (octahedral frames, axis-aligned state, integer covariance): contract J C0 J^T vs implementation-shaped m1/m2 model, all assignment sequences enumerated by TLC and replayed on real Cov objects in synthetic exact frames and on the built-in frames",
+        "text": "TLC enumerates every sequence of <=3 (thorough 4) assignments cov.frame = t / state.frame = t over 5 exact frames + QSW + TNW for 3-5 attachment frames and state orientations; the specification computes the exact integer matrix J C0 J^T each behaviour must end with (J depending on the target only, QSW/TNW built from the state in the attachment frame) and checks the implementation-shaped model of Cov.frame against it. Every behaviour is replayed on real Cov/StateVector objects with the synthetic frames registered in the real library (1e-9); the same walks mapped onto the 10 built-in frames + QSW/TNW from 7 non-rotating starts are replayed with the one-hop-from-fresh result as token, the single hop being judged as J C J^T with J obtained by converting the six basis states; symmetry, PSD, position-block eigenvalues, restoration and a same-frame covariance following its state are checked.",
+        "level_note": "Exact oracle only on the octahedral lattice; generic frames through path-independence laws (1e-7 relative). For rotating targets the full 6x6 is only required to be path independent, symmetric, PSD and restorable. Trusted: TLC, harness/synth.py (registers synthetic frames).",
+    },
+    {
         "property_id": "C12",
         "design_ref": "DESIGN.md §4 C12",
         "technique": "TLA+ model Tle.tla (69-column format as integer fields -> character sequences, Parse/Valid/checksum) and TleStream.tla (multi-TLE texts) enumerated by TLC; every state replayed on the real Tle class",
@@ -52,5 +59,5 @@ CHECKS = [
 
 _PENDING = "check not built yet in this session (design in DESIGN.md §4); will be claimed once its TLA+ model and conformance harness exist"
 NOT_APPLICABLE = [
-    {"property_id": f"C{i:02d}", "reason": _PENDING} for i in range(1, 20) if i not in (3, 8, 9, 10, 12)
+    {"property_id": f"C{i:02d}", "reason": _PENDING} for i in range(1, 20) if i not in (3, 8, 9, 10, 12, 14)
 ]
